@@ -89,6 +89,7 @@ type v2run struct {
 	exited   atomic.Bool
 	sendsAfterBad atomic.Int32
 	badSeen  atomic.Bool
+	relPanic atomic.Bool
 }
 
 func (r *v2run) emit(o any) { r.log = append(r.log, o) }
@@ -275,8 +276,18 @@ func (r *v2run) release(p uint) error {
 		if q == p {
 			r.held = append(r.held[:j], r.held[j+1:]...)
 			r.emit(obs{E: "L", P: p})
-			go r.d.Release(r.cfg.val(p))
+			go func() {
+				defer func() { // Release() on a discipline that has already closed its feedback channel panics
+					if x := recover(); x != nil {
+						r.relPanic.Store(true)
+					}
+				}()
+				r.d.Release(r.cfg.val(p))
+			}()
 			synctest.Wait()
+			if r.relPanic.Swap(false) {
+				r.emit(obs{E: "RelPanic", P: p, Note: "Release() panicked: the discipline terminated while a delivered item was not yet released"})
+			}
 			return nil
 		}
 	}
@@ -687,6 +698,7 @@ func TestReplayV2(t *testing.T) {
 		for _, o := range log {
 			events.put(o)
 		}
+		events.w.Flush()
 	})
 	flushContract(t, "contract_replay.ndjson")
 	t.Logf("REPLAYED paths=%d steps=%d diverged=%d wall=%v", results.n, steps, diverged, time.Since(start))
